@@ -904,8 +904,10 @@ pub fn parse_query(iter: &mut Iter<'_>) -> Query {
                     // expression, which is refused when it is evaluated.
                     let mut lookahead = iter.clone();
                     lookahead.next();
+                    skip_comments(&mut lookahead);
                     match lookahead.peek().cloned().unwrap() {
-                        Token::Eof | Token::Newline | Token::Comment(_) => {
+                        Token::Eof => {
+                            iter.next();
                             Conversion::Degree(deg)
                         }
                         _ => Conversion::Expr(parse_eq(iter)),
@@ -916,17 +918,38 @@ pub fn parse_query(iter: &mut Iter<'_>) -> Query {
                     if let Some(off) = parse_offset(iter) {
                         Conversion::Offset(off)
                     } else {
-                        Conversion::Expr(parse_eq(&mut old))
+                        let expr = parse_eq(&mut old);
+                        *iter = old;
+                        Conversion::Expr(expr)
                     }
                 }
-                Token::Ident(ref s) if is_valid_timezone(s) => Conversion::Timezone(
-                    Tz::from_str(s).expect("Running from_str a second time failed"),
-                ),
+                Token::Ident(ref s) if is_valid_timezone(s) => {
+                    iter.next();
+                    Conversion::Timezone(
+                        Tz::from_str(s).expect("Running from_str a second time failed"),
+                    )
+                }
                 _ => Conversion::Expr(parse_eq(iter)),
             };
-            Query::Convert(left, right, base, digits)
+            // Only comments may follow the target. `10 m -> ft /* feet */ s`
+            // is not a conversion to feet, and `5 K -> degC /**/ m` is not a
+            // conversion to a temperature scale.
+            skip_comments(iter);
+            match iter.peek().cloned().unwrap() {
+                Token::Eof => Query::Convert(left, right, base, digits),
+                x => Query::Error(format!(
+                    "Expected end of input after the conversion target, got {}",
+                    describe(&x)
+                )),
+            }
         }
         _ => Query::Expr(left),
+    }
+}
+
+fn skip_comments(iter: &mut Iter<'_>) {
+    while let Some(&Token::Comment(_)) | Some(&Token::Newline) = iter.peek() {
+        iter.next();
     }
 }
 
